@@ -81,7 +81,7 @@ theorem encFiles_injective (a b : KeyState) (wa : WFState a) (wb : WFState b)
   have := (frames_append_inj a.content b.content wa.content wb.content (canonInputs a) [] []
     (by simpa using h)).1
   intro p hp
-  exact this p (mem_compact_sort.mpr hp)
+  exact this p (mem_compactB_sort.mpr hp)
 
 
 /-- canonical streams: equal states have equal streams (order, duplicates of inputs and map order
@@ -89,7 +89,7 @@ theorem encFiles_injective (a b : KeyState) (wa : WFState a) (wb : WFState b)
 theorem enc_eq_of_stateEq (a b : KeyState) (wa : WFState a) (h : StateEq a b) :
     enc a = enc b ∧ encFiles a = encFiles b ∧ a.inputs.isEmpty = b.inputs.isEmpty := by
   obtain ⟨h1, h2, h3, h4, h5, h6, h7, h8⟩ := h
-  have hc : canonInputs a = canonInputs b := (compact_sort_eq_iff _ _).mpr h3
+  have hc : canonInputs a = canonInputs b := (compactB_sort_eq_iff _ _).mpr h3
   refine ⟨?_, ?_, ?_⟩
   · simp only [enc, hc, h1, h2, h8, (sortBytes_eq_iff _ _).mpr h5, (sortBytes_eq_iff _ _).mpr h6,
       (sortKV_eq_iff _ _ wa.fpKeys).mpr h7]
@@ -97,7 +97,7 @@ theorem enc_eq_of_stateEq (a b : KeyState) (wa : WFState a) (h : StateEq a b) :
     rw [← hc]
     congr 1
     exact List.map_congr_left (fun p hp => by
-      have : p ∈ a.inputs := mem_compact_sort.mp hp
+      have : p ∈ a.inputs := mem_compactB_sort.mp hp
       rw [h4 p this])
   · cases ha : a.inputs with
     | nil =>
@@ -127,7 +127,7 @@ theorem key_eq_iff (H : Bytes → Bytes) (hH : ∀ x y, H x = H y → x = y) (hU
         (a.inputs.isEmpty = false → encFiles a = encFiles b) → StateEq a b := by
       intro he hie hf
       obtain ⟨h1, h2, h3, h4, h5, h6, h7⟩ := enc_injective a b wa wb he
-      have hin := (compact_sort_eq_iff _ _).mp h3
+      have hin := (compactB_sort_eq_iff _ _).mp h3
       refine ⟨h1, h2, hin, ?_, (sortBytes_eq_iff _ _).mp h4, (sortBytes_eq_iff _ _).mp h5,
         (sortKV_eq_iff _ _ wa.fpKeys).mp h6, h7⟩
       cases hia : a.inputs.isEmpty with
@@ -229,7 +229,7 @@ def mk (command : Bytes) (inputs : List Bytes) (content : Bytes → Option Bytes
     outputs := [], deps := [], fingerprint := fingerprint, platform := none }
 
 theorem sort1 (a : Bytes) : sortBytes [a] = [a] := by simp [sortBytes]
-theorem sort2 (a b : Bytes) (h : bytesLe a b = true) : sortBytes [a, b] = [a, b] :=
+theorem sort2 (a b : Bytes) (h : bytesLeH a b = true) : sortBytes [a, b] = [a, b] :=
   List.mergeSort_of_pairwise (by simp [h])
 
 /-- With the old, delimiter-free concatenation, different states had equal streams:
